@@ -93,7 +93,7 @@ PROPERTIES = {
         overlay={"gen/binding/zz_verif_c09.go": "harness/c09/c09_headers.go", "gen/binding/zz_verif_c09b.go": "harness/c09/c09_bytes.go",
                  "gen/binding/zz_verif_c09r.go": "harness/c09/c09_routes.go", "gen/binding/zz_verif_c02.go": "harness/c02/c02_binding.go", "gen/binding/zz_verif_c17.go": "harness/c17/c17_server.go"},
         harnesses=[dict(func="VerifC09Merge", reach=["C09/merge-decided", "C09/override-relaxes"], quick=dict(budget=300), thorough=dict(budget=1200)),
-                   dict(func="VerifC09Value", reach=["C09/value-decided", "C09/uuid-shape", "C09/undecided-by-reference"], quick=dict(budget=300, parts=8), thorough=dict(budget=1200, parts=8)),
+                   dict(func="VerifC09Value", reach=["C09/value-decided", "C09/uuid-shape", "C09/undecided-by-reference"], quick=dict(budget=300, parts=8), thorough=dict(budget=2400, parts=8)),
                    dict(func="VerifC09NonUTF8Values", reach=["C09/bytes/decided"], quick=dict(budget=60), thorough=dict(budget=120)),
                    dict(func="VerifC09PerRoute", reach=["C09/route/dispatched", "C09/route/rejected"], quick=dict(budget=120), thorough=dict(budget=300))]),
             dict(mode="G", load_pkgs=["./internal/tsservergen"], pkgpath=MOD + "/internal/tsservergen", test_pkg="./internal/tsservergen", test_pkgname="tsservergen",
